@@ -665,6 +665,27 @@ func (e *IntervalEnv) provedNonNegDeep(v ssa.Value, b *ssa.BasicBlock, depth int
 	if e.ProvedNonNeg(v, b) {
 		return true
 	}
+	// min(a, b, ...) >= 0 when every argument is; max(a, b, ...) >= 0 when one is. A narrowing conversion of the
+	// result keeps the sign when the result is bounded above by an argument that already has the narrow type
+	if c, isCall := SxStripConv(v).(*ssa.Call); isCall && depth <= 3 {
+		if bi, isB := c.Common().Value.(*ssa.Builtin); isB && (bi.Name() == "min" || bi.Name() == "max") {
+			fits := sizeOfInt(v.Type()) >= sizeOfInt(c.Type())
+			all, any := true, false
+			for _, a := range c.Common().Args {
+				if e.provedNonNegDeep(a, b, depth+1) {
+					any = true
+				} else {
+					all = false
+				}
+				if bi.Name() == "min" && sizeOfInt(SxStripConv(a).Type()) <= sizeOfInt(v.Type()) {
+					fits = true
+				}
+			}
+			if fits && ((bi.Name() == "min" && all) || (bi.Name() == "max" && any && sizeOfInt(v.Type()) >= sizeOfInt(c.Type()))) {
+				return true
+			}
+		}
+	}
 	phi, ok := SxStripConv(v).(*ssa.Phi)
 	if !ok || depth > 3 {
 		return false
